@@ -1993,8 +1993,61 @@ class FnLower:
             return self.flush(ind) + ind + '%s = %s;%s\n' % (tgt, v, self.srcmark(e))
         if arr and core['kind'] == 'ImplicitValueInitExpr':
             return ind + 'memset(%s, 0, sizeof(%s));\n' % (tgt, tgt)
+        if arr and core['kind'] == 'ArrayInitLoopExpr':
+            return self._array_init_loop(tgt, fd, core, ind)
         v = self.expr(core)
         return self.flush(ind) + ind + '%s = %s;%s\n' % (tgt, v, self.srcmark(e))
+
+    def _array_init_loop(self, tgt, fd, core, ind):
+        """member-wise copy of an array member whose elements have a non-trivial copy constructor (implicit copy constructor of the
+        enclosing class): for i in [0, extent): construct tgt[i] from src[i]"""
+        ts = type_str(fd['type'])
+        inner = [x for x in (core.get('inner', []) or []) if 'kind' in x]
+        if len(inner) != 2 or inner[0]['kind'] != 'OpaqueValueExpr':
+            raise Unsupported('ArrayInitLoopExpr shape')
+        src = self.expr(inner[0]['inner'][0])
+        p = self.ast.parent.get(fd['id'])
+        pr = self.ast.recs.get(p.get('id')) if p is not None else None
+        bound = None
+        if pr is not None:
+            self.ctx.need_rec(pr)
+            b = self.ctx.array_bounds.get((pr.id, fd['name']))
+            if b:
+                bound = b[0]
+        if bound is None:
+            bound = re.search(r'\[(\d+)\]', ts).group(1)
+        k = self.newtmp('__i')
+        self._ail = getattr(self, '_ail', [])
+        self._ail.append((inner[0].get('id'), src, k))
+        try:
+            elt = '%s[%s]' % (tgt, k)
+            e = inner[1]
+            while e['kind'] in ('ExprWithCleanups', 'CXXBindTemporaryExpr'):
+                e = e['inner'][0]
+            if e['kind'] in ('CXXConstructExpr', 'CXXTemporaryObjectExpr'):
+                body = self.construct_into(elt, e)
+            else:
+                body = ['%s = %s;' % (elt, self.expr(e))]
+            pre = self.flush(ind + '\t')
+        finally:
+            self._ail.pop()
+        out = ind + '{ uint32_t %s; for (%s = 0; %s < %s; ++%s)\n' % (k, k, k, bound, k)
+        out += ind + '/*LOOP-CONTRACT %s#copy_%s*/\n' % (self.ctx.fn_cname(self.fn), fd['name'])
+        out += ind + '{\n' + pre + ''.join(ind + '\t' + s2 + '\n' for s2 in body) + ind + '} }\n'
+        return out
+
+    def e_OpaqueValueExpr(self, n):
+        for oid, src, k in reversed(getattr(self, '_ail', [])):
+            return src
+        if n.get('inner'):
+            return self.expr(n['inner'][0])
+        raise Unsupported('OpaqueValueExpr outside an array copy')
+
+    def e_ArrayInitIndexExpr(self, n):
+        ail = getattr(self, '_ail', [])
+        if not ail:
+            raise Unsupported('ArrayInitIndexExpr outside an array copy')
+        return ail[-1][2]
 
     def _array_value_init(self, tgt, fd, core, ind):
         """`T arr[N] {}`: every element value-initialised (class elements: default-constructed)"""
